@@ -448,11 +448,54 @@ class Inliner:
         setattr(st, field, Rep().visit(getattr(st, field)))
         return out + [st]
 
+    def _closure_for_run(self, st):
+        """`<x>.run(helper, a, b, ...)` with a helper unknown to the pinned tree and plain names as arguments is
+        `<x>.run(go)` with `def go(): <helper body over a, b, ...>` defined just before: Context.run(f, *args) calls f(*args)
+        at once, so reading the arguments inside the closure instead of binding them at the call changes nothing."""
+        for field in self._header_fields(st):
+            h_expr = getattr(st, field)
+            for c in [x for x in ast.walk(h_expr) if isinstance(x, ast.Call)]:
+                if not (isinstance(c.func, ast.Attribute) and c.func.attr == "run" and c.args and isinstance(c.args[0], ast.Name) and c.args[0].id in self.funcs
+                        and not c.keywords and all(isinstance(a, ast.Name) for a in c.args[1:])):
+                    continue
+                helper = self.funcs[c.args[0].id]
+                params = [x.arg for x in helper.args.posonlyargs + helper.args.args]
+                if len(params) != len(c.args) - 1 or helper.args.kwonlyargs:
+                    continue
+                stored = {x.id for x in _own_walk(helper) if isinstance(x, ast.Name) and isinstance(x.ctx, (ast.Store, ast.Del))}
+                if any(p in stored for p in params):
+                    continue
+                self.counter += 1
+                name = "_run_%s_%d" % (helper.name.strip("_"), self.counter)
+                mapping = {p: a.id for p, a in zip(params, c.args[1:])}
+                body = [copy.deepcopy(s_) for s_ in helper.body]
+                if body and isinstance(body[0], ast.Expr) and isinstance(body[0].value, ast.Constant) and isinstance(body[0].value.value, str):
+                    body = body[1:]
+                suf = "__%s_%d" % (helper.name.strip("_"), self.counter)
+                for l in stored:
+                    mapping[l] = l + suf
+                body = [_Rename(mapping).visit(b) for b in body] or [ast.copy_location(ast.Pass(), c)]
+                fn = ast.FunctionDef(name=name, args=ast.arguments(posonlyargs=[], args=[], vararg=None, kwonlyargs=[], kw_defaults=[], kwarg=None, defaults=[]),
+                                     body=body, decorator_list=[], returns=None, type_comment=None)
+                if hasattr(ast, "TypeVar"):
+                    fn.type_params = []
+                ast.copy_location(fn, c)
+                c.args = [ast.copy_location(ast.Name(id=name, ctx=ast.Load()), c)]
+                self.expanded += 1
+                return [fn, st]
+        return None
+
     def _process_block(self, stmts, cls_name, self_name):
         i = 0
         changed = False
         while i < len(stmts):
             st = stmts[i]
+            cl = self._closure_for_run(st)
+            if cl is not None:
+                stmts[i:i + 1] = cl
+                changed = True
+                i += 1   # skip the new def; the statement itself is re-examined below on the next round
+                continue
             hit = self._find(st, cls_name, self_name)
             if hit is not None:
                 new = self._expand(st, *hit)
